@@ -76,6 +76,7 @@ type stats = { mutable frames : int; mutable qs : int; mutable events : int; mut
 
 let line_tbl : int array ref = ref [||]
 let crash_txt : string ref = ref ""
+let stop_bad : (string * int) list ref = ref []
 let parse_file (path : string) : Trace.tev list * stats =
   let ic = open_in path in
   let st = { frames = 0; qs = 0; events = 0; lines = 0; sites = []; stall = false; errlogs = 0 } in
@@ -181,6 +182,23 @@ let parse_file (path : string) : Trace.tev list * stats =
         | ["SITE"; "reset.noop"; _; r] -> push (Trace.TResetNoop (rid_of r))
         | ["SITE"; "reset.done"; _; r] -> push (Trace.TResetDone (rid_of r))
         | "SITE" :: id :: _ -> st.sites <- id :: st.sites; push Trace.TOther
+        | ["STOP"; kind; fields] ->
+          (* compare the observed shutdown with the life-cycle model (Comp/Lifecycle.v) *)
+          let open Lifecycle in
+          let s0 = fst (step init Start) in
+          let s3 = L.fold_left (fun s o -> fst (step s o)) s0 [StopBegin (nat_of_int 1); StopClose; StopEnd (nat_of_int 1)] in
+          let exp_refused = (snd (step s3 NewConn) = Refused) in
+          let exp_restart = (snd (step (fst (step s3 Start)) NewConn) = Ok) in
+          let exp_clients_closed = (int_of_nat s3.conns = 0) in
+          let kv = L.filter_map (fun f -> match S.index_opt f '=' with Some i -> Some (S.sub f 0 i, S.sub f (i+1) (S.length f - i - 1)) | None -> None)
+                     (S.split_on_char ' ' fields) in
+          let get k = try L.assoc k kv with Not_found -> "?" in
+          let bad = L.filter (fun (k, want) -> get k <> want)
+              [("returned", "true"); ("cause", "true"); ("elapsed_ok", "true"); ("clients_closed", string_of_bool exp_clients_closed);
+               ("refused", string_of_bool exp_refused); ("http", "503"); ("restarted", string_of_bool exp_restart); ("second_stop", "true");
+               ("during_refused", string_of_bool (snd (step (fst (step s0 (StopBegin (nat_of_int 1)))) NewConn) = Refused)); ("during_http", "503")] in
+          stop_bad := L.map (fun (k, _) -> (kind ^ ":" ^ k ^ "=" ^ get k, st.lines)) bad @ !stop_bad;
+          push Trace.TOther
         | "STALL" :: _ -> st.stall <- true
         | "CRASH" :: hx :: _ -> st.stall <- false; crash_txt := unhex hx
         | "ERRLOG" :: _ -> st.errlogs <- st.errlogs + 1; push Trace.TOther
@@ -244,6 +262,8 @@ let run_traces (files : string list) : unit =
       let ln = if pos >= 1 && pos <= Array.length !line_tbl then !line_tbl.(pos - 1) else 0 in
       Printf.printf "VIOL\t%s\t%s\t%s\t%s\t%s\t%d\n" path p k (conn_name (int_of_nat v.Monitors.v_c))
         (rid_name (int_of_nat v.Monitors.v_r)) ln) vs;
+    L.iter (fun (what, ln) -> Printf.printf "VIOL\t%s\tC20\tshutdown-contract\tc0\t%s\t%d\n" path what ln) !stop_bad;
+    stop_bad := [];
     if st.stall then Printf.printf "STALL\t%s\n" path;
     if !crash_txt <> "" then begin
       let first = (match S.index_opt !crash_txt '\n' with Some i -> S.sub !crash_txt 0 i | None -> !crash_txt) in
